@@ -336,11 +336,12 @@ fn jlist(l: &[String]) -> String {
 
 fn part_a(rng: &mut Rng, n: usize, st: &mut Stats) {
     let s = Scratch::new("c17mk");
-    let alpha: Vec<&str> = vec!["a", "b", "\\", "\\", " ", " ", "#", "$", ":", "\t", ".", "/", "é", "%", "~"];
+    let alpha: Vec<&str> = vec!["a", "b", "\\", "\\", " ", " ", "#", "$", ":", "\t", ".", "/", "é", "a", "b", " "];
+    let rare: Vec<&str> = vec!["%", "~", "(", ";", "="];
     let talpha: Vec<&str> = vec!["o", "\\", " ", "$", "#", ".", "/"];
     let mut lines = vec![];
     for _ in 0..n {
-        let mode = rng.below(3);
+        let mode = rng.below(8);
         let mut line = String::new();
         if mode == 0 {
             for _ in 0..rng.range(1, 13) {
@@ -357,7 +358,11 @@ fn part_a(rng: &mut Rng, n: usize, st: &mut Stats) {
             }
             line.push(':');
             for _ in 0..rng.range(0, 13) {
-                line.push_str(*rng.pick::<&str>(&alpha));
+                if rng.chance(1, 60) {
+                    line.push_str(*rng.pick::<&str>(&rare));
+                } else {
+                    line.push_str(*rng.pick::<&str>(&alpha));
+                }
             }
         }
         lines.push(line);
@@ -1073,8 +1078,17 @@ fn run_case(c: &Case, idx: usize, table_fixed: bool, st: &mut Stats, self_exe: &
     for k in &c.extra_set {
         cmd.env(k, "-DBGV_EXTRA=1");
     }
-    let (rc, stdout, stderr) = run_timeout(&mut cmd, 120);
+    let (mut rc, mut stdout, mut stderr) = run_timeout(&mut cmd, 120);
     st.inc("C.library_runs");
+    if rc == -9 && !model_err {
+        // an overloaded machine is not a finding: once more, with a generous limit
+        st.inc("C.library_retries_after_timeout");
+        let _ = std::fs::remove_file(&log);
+        let r = run_timeout(&mut cmd, 1200);
+        rc = r.0;
+        stdout = r.1;
+        stderr = r.2;
+    }
     if rc == -9 {
         if model_err {
             st.inc("C.model_error_timeout");
@@ -1474,17 +1488,17 @@ fn main() {
     let t0 = std::time::Instant::now();
     if want("A") {
         let mut r = rng.fork();
-        part_a(&mut r, if thorough { 12000 } else { 1500 }, &mut st);
+        part_a(&mut r, if thorough { 9000 } else { 1500 }, &mut st);
     }
     let ta = t0.elapsed().as_secs_f64();
     if want("B") {
         let mut r = rng.fork();
-        part_b(&mut r, if thorough { 60000 } else { 6000 }, if thorough { 8000 } else { 1200 }, table_fixed, &mut st);
+        part_b(&mut r, if thorough { 40000 } else { 6000 }, if thorough { 5000 } else { 1200 }, table_fixed, &mut st);
     }
     let tb = t0.elapsed().as_secs_f64();
     let mut kinds = BTreeSet::new();
     if want("C") {
-        let n = if thorough { 3000 } else { 120 };
+        let n = if thorough { 1500 } else { 120 };
         let (s, k) = part_c(args.seed, n, thorough, table_fixed, 8, &self_exe);
         st.merge(s);
         kinds = k;
